@@ -143,7 +143,10 @@ def workspaces(rng, quick):
     # what is reported AT the end of the text (an open conditional, an unterminated string / comment / code fragment, a statement
     # the end cuts short) when the text ends in a multi-byte character and has no final line break
     opens = ["#ifdef FOO\n", "#ifndef FOO\n", "#define X\n#ifdef X\n", "#ifndef G\n#else\n", "#ifdef FOO\n#else\n", ""]
-    tails = ["// \u7d42", "/* \u00e9", "\"\u540d", "[{ \u00fc", "def \"\u540d\u524d\" : A;\u3000", "\u00e9", "class \U0001F600", "def d : A<\u2026", "include \"\u00fc.td"]
+    tails = ["// \u7d42", "/* \u00e9", "\"\u540d", "[{ \u00fc", "def \"\u540d\u524d\" : A;\u3000", "\u00e9", "class \U0001F600", "def d : A<\u2026", "include \"\u00fc.td",
+             # declarations that have neither `;` nor `{` yet (their last child node is empty), followed by trivia that ends in a multi-byte character
+             "class Foo // \u30b3\u30e1\u30f3\u30c8", "def X : A // \u00e9", "defset list<A> All = /* \u307e\u3060", "class Foo<int a,\r\n  int b> // na\u00efve caf\u00e9\r\n\r\n",
+             "def X // \u5b9a\u7fa9\nclass Bar;\n", "multiclass M // \u00fc", "class Foo\n#ifdef NEVER\nclass Bar; // \u30d0\u30fc"]
     eofbase = [t for t in texts if len(t) < 300][: (12 if quick else 200)] + ["class A;\n", ""]
     for t in eofbase:
         for _ in range(2 if quick else 6):
